@@ -416,6 +416,32 @@ pub fn scale_family(kind: &str, n: usize) -> Shape {
             t = n as u64 + 3;
             m = 2 * n as u64 + 2;
         }
+        "ladder-other-pc" | "ladder-other-binding" | "ladder-other-both" => {
+            // a ladder n levels deep (two helpers per level, each calling both helpers of the next level, void and value
+            // forms alternating) under the vertex entry; a push constant / a binding that only the fragment entry uses:
+            // "does this entry reach that variable" has the answer no along 2^n call paths
+            if kind != "ladder-other-binding" {
+                src.push_str("var<push_constant> only_fs_pc: vec4<f32>;\n");
+            }
+            if kind != "ladder-other-pc" {
+                src.push_str("@group(0) @binding(0) var<uniform> only_fs_u: vec4<f32>;\n");
+            }
+            src.push_str(&format!("@group({}) @binding(0) var<uniform> bottom: vec4<f32>;\n", if kind == "ladder-other-pc" { 0 } else { 1 }));
+            src.push_str(&format!("fn fa_{n}() -> f32 {{ return bottom.x; }}\nfn fb_{n}() {{ }}\n"));
+            for i in (0..n).rev() {
+                src.push_str(&format!("fn fa_{i}() -> f32 {{ fb_{}(); return fa_{}() + 1.0; }}\nfn fb_{i}() {{ fb_{}(); let v = fa_{}(); }}\n", i + 1, i + 1, i + 1, i + 1));
+            }
+            src.push_str("@vertex fn vs_main() -> @builtin(position) vec4<f32> { fb_0(); return vec4<f32>(fa_0()); }\n");
+            let use_pc = if kind != "ladder-other-binding" { "only_fs_pc" } else { "vec4<f32>(0.0)" };
+            let use_u = if kind != "ladder-other-pc" { "only_fs_u" } else { "vec4<f32>(0.0)" };
+            src.push_str(&format!("@fragment fn fs_main() -> @location(0) vec4<f32> {{ return {use_pc} + {use_u}; }}\n@compute @workgroup_size(1) fn cs_main() {{ }}\n"));
+            e = 3;
+            f = 2 * n as u64 + 5;
+            c = 4 * n as u64 + 2;
+            g = 3;
+            t = 2;
+            m = 0;
+        }
         "array-nesting-1" | "array-nesting-1-vertex-and-override" => {
             // one-element arrays nested n deep (the size stays 16 bytes however deep): as a struct member of a storage
             // variable, as the type of a private variable and of a function-local value
@@ -679,6 +705,9 @@ pub fn scale_cases() -> Vec<(&'static str, usize)> {
         ("fragment-output-members-desc", vec![8, 32, 64]),
         ("vertex-input-members", vec![8, 32, 64]),
         ("groups-bindings-mixed", vec![64, 400]),
+        ("ladder-other-pc", vec![8, 24, 40]),
+        ("ladder-other-binding", vec![8, 24, 40]),
+        ("ladder-other-both", vec![32]),
         ("array-nesting-1", vec![8, 24, 40, 60]),
         ("array-nesting-1-vertex-and-override", vec![30]),
         ("stmt-else-if-chain", vec![24, 48]),
@@ -877,10 +906,13 @@ pub fn run(tier: &str) -> i32 {
             Err(e) => machinery(&format!("C20 scale child failed: {e}")),
         }
     }
+    if scale_report.len() + 3 < scs.len() {
+        machinery(&format!("C20: only {} of {} scale family members were accepted by naga and the generator (families built wrongly?)", scale_report.len(), scs.len()));
+    }
     rep.set("scale_families", json!(scale_report));
     rep.set("wall_clock_children", json!(wall));
     rep.traces_validated = rep.evaluations;
-    rep.rule = format!("(1) every tile: DAG on <= {} helpers with each forward edge in {{absent, 1 statement call, 1 value call, 2 statement calls, 2 value calls, 1+1 mixed}}, composed {}x in series; (2) chain / diamond / 3-fold fan-in / fan-out families at depths {:?} with every call form at every placement context, plus 4-entry and 290-function members; (3) nested two-/three-member struct types to depth 24/40, wide structs, many variables sharing one type; (3b) statement shapes in one function (else-if chains, nested if / else / loop / for / switch / blocks, mixed) at sizes up to 60 under 1 and 3 entry points, block visits <= 8*E*(B+1) from the walk:block hook; (4) size families: up to 1000 bindings / 1000 members / 300 structs / 64 vertex entries x 12 structs / 200 entry points sharing helpers / 300 consts+overrides / arrays nested 16 deep (two elements per level) and 60 deep (one element per level), each under 2 s. Oracle: walk:function visits <= 8*E*(F+C+1), walk:type visits <= 8*G*(T+M+1) (hook aborts at the budget); wall clock of amplified members in child processes <= max(2 s, 200 x same-size flat shader).", 4, if thorough { 16 } else { 8 }, if thorough { vec![8, 16, 32, 64] } else { vec![16, 64] });
+    rep.rule = format!("(1) every tile: DAG on <= {} helpers with each forward edge in {{absent, 1 statement call, 1 value call, 2 statement calls, 2 value calls, 1+1 mixed}}, composed {}x in series; (2) chain / diamond / 3-fold fan-in / fan-out families at depths {:?} with every call form at every placement context, plus 4-entry and 290-function members; (3) nested two-/three-member struct types to depth 24/40, wide structs, many variables sharing one type; (3b) statement shapes in one function (else-if chains, nested if / else / loop / for / switch / blocks, mixed) at sizes up to 60 under 1 and 3 entry points, block visits <= 8*E*(B+1) from the walk:block hook; (3c) ladders 40 levels deep under one entry with a push constant / binding that only another entry uses; (4) size families: up to 1000 bindings / 1000 members / 300 structs / 64 vertex entries x 12 structs / 200 entry points sharing helpers / 300 consts+overrides / arrays nested 16 deep (two elements per level) and 60 deep (one element per level), each under 2 s. Oracle: walk:function visits <= 8*E*(F+C+1), walk:type visits <= 8*G*(T+M+1) (hook aborts at the budget); wall clock of amplified members in child processes <= max(2 s, 200 x same-size flat shader).", 4, if thorough { 16 } else { 8 }, if thorough { vec![8, 16, 32, 64] } else { vec![16, 64] });
     rep.assumptions.push("step counts come from the verif-hooks points at the top of the two recursive walks; if a refactor removes them the wall-clock part decides alone".into());
     rep.finish()
 }
